@@ -1,5 +1,4 @@
 """C13 - interpolation honours the data and the requested grid."""
-import copy
 import math
 import warnings
 from fractions import Fraction
@@ -7,7 +6,7 @@ from fractions import Fraction
 import numpy as np
 from hypothesis import strategies as st
 
-from twv.runner import Sub, Violation
+from twv.runner import Sub, Violation, digest
 from twv.gens import fl, xs, ys
 
 import traffic_weaver.process as process
@@ -26,9 +25,15 @@ RULE = ("Hypothesis builds series of 4..60 samples (eight spacing kinds incl. in
         "range; every all-integer grid is passed as int64 array or list of Python ints, with non-integer y). "
         "Weaver.interpolate(n) is also run with n = len(x) on non-uniform epoch / tiny x; weaver_history applies 1..4 "
         "preparatory steps (shift_y, scale_y, shift_x, scale_x > 0, polynomial trend, seeded noise, smooth, "
-        "interpolate by n / shifted / refined / thinned grid) to one Weaver and then interpolates deep copies of it "
-        "with every method on a grid derived from the current abscissae or with n points, judged against copies of "
-        "get() (non-trivial there = the working series differs from the reference). Each of the four methods is run "
+        "interpolate by n / shifted / refined / thinned grid, append_one_sample(make_periodic True/False), repeat, "
+        "truncate_by_index / _by_value keeping >= 5 samples, normalize_x / _y, restore_original) to one Weaver "
+        "and then, replaying the history on a new object per method, interpolates with every method on a grid "
+        "derived from the current abscissae or with n points, judged against copies of get() (non-trivial there = "
+        "the working series differs from the reference); process_history keeps ONE pair of ndarray objects (and a "
+        "second pair of equal shape, and the grid object) and alternates calls of process.interpolate with in-place "
+        "edits of y (one element, affine overwrite, rescale, reverse, sine), of x (affine map, one abscissa moved "
+        "between its neighbours) and of the grid, judging every call against the current contents (non-trivial "
+        "there = the same objects are passed again after an edit). Each of the four methods is run "
         "through process.interpolate; Weaver.interpolate is run with n in 2..200 (thorough 2..600) and with explicit "
         "grids whose end points are equal, or differ at the first / last / both ends (by one ulp or more), and with "
         "unknown method names. Non-trivial = the new grid is not a subset of the samples (at_samples: the values "
@@ -43,6 +48,12 @@ ASSUMPTIONS = ["x strictly increasing, new grid non-decreasing and non-empty (do
                "<= 0.009 of the tolerance)",
                "interpolate(n): steps equal the exact (x_last - x_first)/(n-1) within 16 ulp of max|x| (numpy.linspace "
                "itself deviates by up to 3.64 ulp in a 2e5-case search, so DESIGN's 4 ulp was widened)",
+               "a violation observed for a case is reported again when Hypothesis re-executes that case in the same "
+               "process (faults that keep state between calls make the verdict depend on what ran before)",
+               "history steps are applied only when their documented preconditions hold for the current series "
+               "(otherwise skipped and counted): >= 5 samples remain, abscissae stay distinct in float arithmetic, "
+               "normalize_y on non-constant values, truncate_by_index only while working and reference have the same "
+               "length, repeat up to 400 samples",
                "weaver_history: histories whose abscissae leave the conditioned range (not strictly increasing in "
                "float arithmetic, fewer than 5 samples, gap ratio > 1e2) or that trigger a FITPACK warning are "
                "counted and not judged",
@@ -868,7 +879,9 @@ def pair_state(pair):
     return tuple((str(np.asarray(a).dtype), np.asarray(a).shape, np.asarray(a).tobytes()) for a in pair)
 
 
-def weaver_history_body(ctx, case):
+def run_history(case):
+    """a new Weaver taken through the preparatory steps (deterministic: the noise steps are seeded);
+    returns (weaver, names of the steps applied, status)"""
     xi, yi = inputs(case)
     w = Weaver(xi, yi)
     done = []
@@ -877,15 +890,20 @@ def weaver_history_body(ctx, case):
         for step in case["steps"]:
             cur = [float(v) for v in w.get()[0]]
             if step["op"] in ("smooth", "interpolate") and not usable(cur):
-                ctx.count("history-left-the-conditioned-range")
-                return
+                return w, done, "history-left-the-conditioned-range"
             if apply_step(w, step) == "skipped":
-                ctx.count("step skipped (precondition)")
                 continue
             done.append(step["op"] if step["op"] != "append_one_sample" or not step["periodic"]
                         else "append_one_sample(periodic)")
     if any(issubclass(r.category, (RuntimeWarning, UserWarning)) for r in log):
-        ctx.count("discarded_fitpack")
+        return w, done, "discarded_fitpack"
+    return w, done, "ok"
+
+
+def weaver_history_body(ctx, case):
+    w, done, status = run_history(case)
+    if status != "ok":
+        ctx.count(status)
         return
     pair = get_pair(w, "history")
     cx = [float(v) for v in pair[0]]
@@ -896,7 +914,11 @@ def weaver_history_body(ctx, case):
     hist = " > ".join(done)
     final = case["final"]
     for method in METHODS:
-        v = copy.deepcopy(w)
+        # the same history replayed on a new object for every method (no copying of a Weaver: state that a step
+        # plants on the instance must stay attached to the instance it was planted on)
+        v = run_history(case)[0]
+        if pair_state(v.get()) != pair_state(pair):
+            raise Violation(f"the history {hist} is not reproducible: replaying it on a new Weaver gives another series")
         ref0, orig0 = pair_state(v.get_reference()), pair_state(v.get_original())
         if "n" in final:
             n = final["n"]
@@ -1069,30 +1091,54 @@ def process_history_body(ctx, case):
     ctx.record(case, cls, nontrivial="same objects passed again after an in-place edit" in cls)
 
 
+_FIRST_VERDICT = {}
+
+
+def sticky(body):
+    """Faults that keep state between calls (a memo inside the library keyed on object identity or on a fingerprint
+    of the arguments, a cache on the instance) make the verdict for one and the same case depend on what ran before
+    it in the process.  A violation that was observed is real; it is remembered per process and reported again when
+    Hypothesis re-executes the identical case, from one raise site (Hypothesis identifies a failure by type, line
+    and context and would otherwise abort with 'flaky' instead of reporting it).  Passing runs are never remembered;
+    ./check C13 --replay in a new process evaluates the case afresh."""
+    def wrapped(ctx, case):
+        key = (body.__name__, digest(case))
+        verdict = _FIRST_VERDICT.get(key)
+        if verdict is None:
+            try:
+                body(ctx, case)
+            except Violation as v:
+                verdict = _FIRST_VERDICT[key] = (v.msg, v.detail)
+        if verdict is not None:
+            raise Violation(verdict[0], detail=verdict[1])
+    wrapped.__name__ = body.__name__
+    return wrapped
+
+
 SUBCHECKS = [
-    Sub("at_samples", "hyp", at_samples_body, quick=300, thorough=6000,
+    Sub("at_samples", "hyp", sticky(at_samples_body), quick=300, thorough=6000,
         strategy=lambda ctx: grid_case(ctx, profiles=["same", "same", "superset", "subset", "same-int", "same-int"]),
         clause="every method returns the sample values at the original abscissae (linear/constant exactly, "
                "cubic/spline to 1e-9)"),
-    Sub("constant", "hyp", single_method_body, quick=300, thorough=6000,
+    Sub("constant", "hyp", sticky(single_method_body), quick=300, thorough=6000,
         strategy=lambda ctx: grid_case(ctx, method="constant", nonconstant=True),
         clause="'constant': value of the last sample at or before each new point, first value left of the data"),
-    Sub("linear", "hyp", single_method_body, quick=300, thorough=6000,
+    Sub("linear", "hyp", sticky(single_method_body), quick=300, thorough=6000,
         strategy=lambda ctx: grid_case(ctx, method="linear", nonconstant=True),
         clause="'linear': straight-line value between the two neighbouring samples, exact on the samples"),
-    Sub("affine", "hyp", affine_body, quick=300, thorough=6000,
+    Sub("affine", "hyp", sticky(affine_body), quick=300, thorough=6000,
         strategy=lambda ctx: grid_case(ctx, affine=True),
         clause="linear, cubic and spline reproduce affine data inside the range"),
-    Sub("weaver_n", "hyp", weaver_n_body, strategy=weaver_n_case, quick=300, thorough=6000,
+    Sub("weaver_n", "hyp", sticky(weaver_n_body), strategy=weaver_n_case, quick=300, thorough=6000,
         clause="Weaver.interpolate(n): exactly n equally spaced points spanning the same range, values per method"),
-    Sub("process_history", "hyp", process_history_body, strategy=process_history_case, quick=200, thorough=4000,
+    Sub("process_history", "hyp", sticky(process_history_body), strategy=process_history_case, quick=200, thorough=4000,
         clause="process.interpolate called repeatedly with the SAME x / y / grid array objects, edited in place in "
                "between (one element, whole array, affine overwrite, x moved keeping it increasing) and alternating "
                "with a second pair of equal shape: every call obeys all oracles for the current contents"),
-    Sub("weaver_history", "hyp", weaver_history_body, strategy=weaver_history_case, quick=200, thorough=4000,
+    Sub("weaver_history", "hyp", sticky(weaver_history_body), strategy=weaver_history_case, quick=200, thorough=4000,
         clause="after 1..4 preparatory steps on one Weaver, interpolate (n or new_x, every method) acts on the CURRENT "
                "working series: all oracles above applied to copies of get(); reference and original untouched"),
-    Sub("weaver_grid", "hyp", weaver_grid_body, strategy=weaver_grid_case, quick=300, thorough=6000,
+    Sub("weaver_grid", "hyp", sticky(weaver_grid_body), strategy=weaver_grid_case, quick=300, thorough=6000,
         clause="Weaver.interpolate(new_x): grid adopted when both end points agree, otherwise (and for an unknown "
                "method) ValueError with the Weaver unchanged"),
 ]
